@@ -459,12 +459,26 @@ def replay_language(w, shard):
 # ---------------------------------------------------------------------------------------------------
 # obligation 2: capture fidelity (solver-generated members, concrete decision on the real parser)
 # ---------------------------------------------------------------------------------------------------
+QUICK_FIDELITY_LISTS = ("none", "slash", "prefix", "pipe", "paren", "nonascii")
+
+
 def _fidelity_shards(tier):
     out = []
+
+    def num(builder, name, units, nn, io):
+        out.append({"builder": builder, "list": name, "units": units, "non_negative": nn, "int_only": io})
+
     for name, units in _unit_lists(tier).items():
-        for b in ("RegexNumber", "RegexNumberOptional"):
-            out.append({"builder": b, "list": name, "units": units, "non_negative": False, "int_only": False})
-        out.append({"builder": "RegexNumber", "list": name, "units": units, "non_negative": True, "int_only": True})
+        if tier == "quick":
+            if name in QUICK_FIDELITY_LISTS:
+                num("RegexNumber", name, units, False, False)
+            continue
+        num("RegexNumber", name, units, False, False)
+        num("RegexNumberOptional", name, units, False, False)
+        num("RegexNumber", name, units, True, True)
+    if tier == "quick":
+        num("RegexNumberOptional", "slash", UNIT_LISTS["slash"], False, False)
+        num("RegexNumber", "kg", UNIT_LISTS["kg"], True, True)
     for name, (ex, ad) in _option_lists(tier).items():
         out.append({"builder": "RegexCategorical", "list": name, "exclusive": ex, "additive": ad})
     for ae in (False, True):
@@ -752,7 +766,7 @@ OBLIGATIONS = [
         name="capture_fidelity", kind="z3", run=run_fidelity, replay=replay_fidelity, shards=_fidelity_shards, decides="concrete", encoded=_ENC
         + ["openpectus.lang.exec.uod:RegexNamedArgumentParser.parse"],
         symbolic="members of regex & documented language generated by z3 per boundary shape (sign, leading/trailing '.', 0/1/3 blanks, each unit, single/list options)",
-        bounds={"quick": ">= 2 distinct members per shape and unit", "thorough": ">= 6 distinct members per shape and unit"},
+        bounds={"quick": "6 unit lists (RegexNumber), one RegexNumberOptional, one int_only/non_negative, 9 option-list pairs, RegexText; 2 distinct members per shape and unit (14 shapes)", "thorough": "all 15 unit lists x 3 builder variants, 12 option-list pairs; 6 distinct members per shape and unit"},
         assumptions=["decision per member is a concrete run of the real RegexNamedArgumentParser.parse (Python re); the solver only chooses the inputs",
                      "any decomposition blanks+number+blanks+unit+blanks of the argument that equals the delivered groups is accepted"]),
     Obligation(
